@@ -227,6 +227,8 @@ def gen_phs_script(rng, dims, per_dim):
             k += 1
     for n in list(range(0, 13)) + [20, 50]:
         ops.append(("ball %d" % n, {"kind": "ball", "n": n}))
+        r = rng.choice([0.5, 1.0, 2.0, rng.uniform(0.01, 30.0)])
+        ops.append(("nball %d %s" % (n, f2bits(r)), {"kind": "nball", "n": n, "r": r}))
     return news, ops, k
 
 
@@ -295,7 +297,23 @@ def check_rot(n, f1, f2, R):
     cmin = dist(f1, f2)
     axis = [(b - a) / cmin for a, b in zip(f1, f2)]
     worst_axis = max(abs(a - b) for a, b in zip(cols[0], axis))
-    return worst, worst_axis
+    # updateRotation forces a proper rotation: det = +1 (Gaussian elimination with partial pivoting)
+    M = [list(c) for c in cols]
+    det = 1.0
+    for i in range(n):
+        piv = max(range(i, n), key=lambda r: abs(M[r][i]))
+        if abs(M[piv][i]) < 1e-300:
+            det = 0.0
+            break
+        if piv != i:
+            M[i], M[piv] = M[piv], M[i]
+            det = -det
+        det *= M[i][i]
+        for r in range(i + 1, n):
+            fct = M[r][i] / M[i][i]
+            for cc in range(i, n):
+                M[r][cc] -= fct * M[i][cc]
+    return max(worst, abs(det - 1.0)), worst_axis
 
 
 def phs_oracle(line, meta, out):
@@ -313,6 +331,10 @@ def phs_oracle(line, meta, out):
     if kind == "ball":
         m = bits2f(d["~m"])
         return None if relclose(m, unit_ball(meta["n"])) else "unitNBallMeasure(%d) = %r, closed form %r" % (meta["n"], m, unit_ball(meta["n"]))
+    if kind == "nball":
+        m = bits2f(d["~m"])
+        want = unit_ball(meta["n"]) * meta["r"] ** meta["n"]
+        return None if relclose(m, want) else "nBallMeasure(%d, %r) = %r, closed form %r" % (meta["n"], meta["r"], m, want)
     n, c, S, cmin = meta["n"], meta.get("c"), meta.get("S"), meta["cmin"]
     if kind == "setc":
         if not out.startswith("setc ok"):
@@ -569,6 +591,9 @@ def smp_lockstep(ck, hbin, rng, tag, cmpst, nonmonotone=False):
         m = {"kind": "upd", "c": c, "alive": list(alive), "deg": deg, "S": S + c}
         ops.append(("upd %s" % f2bits(c), m))
         ops.append(("im %s" % f2bits(c), dict(m, kind="im")))
+        if not deg:
+            mc2 = c * rng.choice([0.5, 0.8, 0.95])
+            ops.append(("im2 %s %s" % (f2bits(mc2), f2bits(c)), dict(m, kind="im2", minc=mc2)))
         if deg:
             continue
         for _ in range(4):
@@ -606,6 +631,12 @@ def smp_lockstep(ck, hbin, rng, tag, cmpst, nonmonotone=False):
             minc = min(cmins) * rng.uniform(0.9, 1.4)
             ops.append(("su3 %s %s" % (f2bits(minc), cs), {"kind": "su3", "c": c, "minc": minc, "sampler": "rej", "iters": iters, "thr": thr, "S": S + diam}))
         ops.append(("im %s" % f2bits(diam), {"kind": "im-rej"}))
+        # the StateSampler wrapper planners use: informed attempt, else one regular base sample
+        k2 = rng.range(1, iters + 2)
+        cands = [rand_point(rng, P, (pairs[idx][0], pairs[idx][1], c if c < math.inf else diam)) if rng.chance(2, 3)
+                 else [lo + (hi - lo) * rng.unit() for _ in range(n)] for _ in range(k2)]
+        ops.append(("base %d %s" % (k2, " ".join(vb(x) for x in cands)), {"kind": "base"}))
+        ops.append(("iss %s" % cs, {"kind": "iss", "c": c, "sampler": "rej", "iters": iters, "thr": thr, "S": S + diam}))
     script = head + [l for l, _ in ops]
     metas = [{"kind": "setup"}] * (len(head) - 1) + [m for _, m in ops]
     return judge_smp(ck, hbin, script, metas, P, cmpst, tag + "-rej", False)
@@ -660,6 +691,13 @@ def judge_smp(ck, hbin, script, metas, P, cmpst, tag, nonmonotone):
                 f = "hasInformedMeasure is false for the direct sampler"
             elif not relclose(bits2f(d["~m"]), want, TOL if m.get("strict") else max(meas_tol(n, cmins[j], c) for j in m["alive"])):
                 f = "getInformedMeasure %r, analytic %r" % (bits2f(d["~m"]), want)
+        elif kind == "im2":
+            c, mc2 = m["c"], m["minc"]
+            hi_ = min(tot, sum(phs_meas(n, cmins[j], c) for j in m["alive"] if cmins[j] < c))
+            lo_ = min(tot, sum(phs_meas(n, cmins[j], mc2) for j in m["alive"] if cmins[j] < mc2))
+            tol = max([meas_tol(n, cmins[j], c) for j in m["alive"]] + [meas_tol(n, cmins[j], mc2) for j in m["alive"] if cmins[j] < mc2])
+            if abs(bits2f(d["~m"]) - (hi_ - lo_)) > tol * max(hi_, lo_):
+                f = "getInformedMeasure(minCost, maxCost) = %r, analytic difference %r" % (bits2f(d["~m"]), hi_ - lo_)
         elif kind == "im-rej":
             if d.get("has") != "0" or not relclose(bits2f(d["~m"]), tot):
                 f = "rejection sampler: informed measure %s has=%s, expected the space measure %r and has=0" % (d.get("~m"), d.get("has"), tot)
@@ -690,6 +728,30 @@ def judge_smp(ck, hbin, script, metas, P, cmpst, tag, nonmonotone):
             vals = toks[2:]
             for a in range(cnt):
                 queue.append(vals[a * n:(a + 1) * n])
+        elif kind == "iss":
+            c = m["c"]
+            if o.endswith("starved"):
+                ck.count("iss:starved")
+                queue = []
+            elif o.endswith("phs-branch"):
+                ck.count("iss:phs-branch(not scripted)")
+            else:
+                used = int(d["used"])
+                consumed, queue = queue[:used], queue[used:]
+                ck.case((tag, ln, i), True)
+                hs = [base_heur(P, m["thr"], fvec(",".join(q))) if m["sampler"] == "rej" else min(focal(fvec(",".join(q)), *p) for p in pairs) for q in consumed]
+                x = fvec(d["x"])
+                if used == 0 or ",".join(consumed[-1]) != d["x"]:
+                    f = "InformedStateSampler returned a state that is not the last base draw it consumed"
+                elif used > m["iters"] + 1:
+                    f = "InformedStateSampler consumed %d draws with numIters=%d (+1 fallback)" % (used, m["iters"])
+                elif any(h < c - TOL * m["S"] for h in hs[:-1]):
+                    f = "an earlier draw already had heuristic cost below the bound but was not returned"
+                elif used < m["iters"] and c < math.inf and not hs[-1] < c + TOL * m["S"]:
+                    f = "InformedStateSampler stopped early on a draw with cost %r >= bound %r" % (hs[-1], c)
+                elif d["inb"] != ("1" if all(lo - EPS <= v <= hi + EPS for v in x) else "0"):
+                    f = "satisfiesBounds flag inconsistent with the state"
+                ck.count("iss:%s" % ("fallback" if used == m["iters"] + 1 else "informed-or-last"))
         elif kind in ("su", "su3"):
             c = m["c"]
             if o.endswith("phs-branch"):
@@ -727,6 +789,8 @@ def judge_smp(ck, hbin, script, metas, P, cmpst, tag, nonmonotone):
                 if bad >= 3:
                     return bad
         mt = max([meas_tol(n, cmins[j], m["c"]) for j in m["alive"]] + [TOL]) if kind in ("upd", "im") and not m.get("strict") else TOL
+        if kind == "im2":
+            mt = 1e-6
         dd = cmpst.line(o, model[i] if i < len(model) else "<missing>", m.get("S", 1.0), mtol=mt,
                         soft_flags=(kind == "nin" and not m.get("strict") and any(abs(focal(m["x"], *pairs[j]) - m["c"]) <= TOL * m["S"] for j in m["alive"])))
         if dd is not None and f is None:
@@ -1212,6 +1276,211 @@ def run_seq(ck, hbin, cmpst, rng):
 
 
 
+# ---------------------------------------------------------------------------------- PHS branch, replayed private draws
+def run_sup(ck, hbin, cmpst, rng):
+    """samplePhsRejectBounds in lock-step: the harness replays the sampler's private RNG with an identically seeded twin
+    (`supp` prints the draw stream, `sup`/`sup3` make the real call); the model consumes the same draws: randomPhsPtr
+    (measure-weighted choice among 1-9 PHSs), transform, keepSample (1/k), satisfiesBounds, the isInAnyPhs re-test,
+    iteration accounting of the 2- and 3-argument forms."""
+    bad = 0
+    nprob = 14 if ck.tier == "quick" else 80
+    for pi in range(nprob):
+        r = rng.fork("sup%d" % pi)
+        P = gen_problem(r, "rv", r.choice([2, 2, 3, 4]))
+        if pi % 3 == 0:       # overlapping PHSs partly outside small bounds
+            P["lo"], P["hi"] = 0.0, 1.0
+            P["starts"] = [[r.uniform(0.05, 0.95) for _ in range(P["n"])] for _ in P["starts"]]
+            P["goals"] = [[r.uniform(0.05, 0.95) for _ in range(P["n"])] for _ in P["goals"]]
+        n, lo, hi = P["n"], P["lo"], P["hi"]
+        pairs = pairs_of(P)
+        cmins = [dist(s_, g_) for s_, g_ in pairs]
+        iters = r.choice([1, 2, 5, 20, 100])
+        hdr = "phs seed=%d" % (1 + r.below(10 ** 6))
+        head = [hdr] + prob_lines(P) + ["mk direct %d %s" % (iters, f2bits(0.0))]
+        calls = []
+        for j in range(8):
+            c = max(cmins) * r.choice([1.02, 1.1, 1.3, 1.7])
+            seed = 1 + r.below(10 ** 6)
+            minc = (min(cmins) * r.uniform(1.0, 1.3)) if j % 2 else None
+            calls.append((seed, c, minc))
+        pre, rc, err = ck.run_bin(hbin, head + ["sprobe"] + ["supp %d %s" % (sd, f2bits(c)) for sd, c, _ in calls])
+        if not pre or rc != 0 or len(pre) != len(head) - 1 + 1 + len(calls):
+            ck.report({"engine": "phs", "class": "harness-failure", "what": "supp probe failed"}, script=head, observed=(pre or [])[-3:] + [str(rc), (err or "")[-600:]])
+            return bad + 1
+        srots = []
+        sp = pre[len(head) - 1]
+        okrot = True
+        for i, tok in enumerate(sp.split()[1:]):
+            R = fvec(tok.split("=", 1)[1])
+            w1, w2 = check_rot(n, pairs[i][0], pairs[i][1], R)
+            ck.count("rotation-hypotheses-checked")
+            if w1 > 1e-9 or w2 > 1e-9:
+                okrot = False
+            srots.append("srot %d %s" % (i, vb(R)))
+        if not okrot:
+            ck.report({"engine": "phs", "class": "rotation-hypothesis", "what": "sampler PHS rotation is not a proper rotation with first column the focal axis"},
+                      script=head + ["sprobe"], observed=[sp])
+            bad += 1
+            continue
+        body, metas = [], []
+        S = max(abs(lo), abs(hi)) + 2 * max(cmins)
+        for (sd, c, minc), ln in zip(calls, pre[len(head):]):
+            if ln.endswith("bounds-branch"):
+                ck.count("sup:bounds-branch(skipped)")
+                continue
+            draws = ln.split("draws=", 1)[1].replace(",", " ")
+            if minc is None:
+                body.append("sup %d %s %s" % (sd, f2bits(c), draws))
+            else:
+                body.append("sup3 %d %s %s %s" % (sd, f2bits(minc), f2bits(c), draws))
+            metas.append({"c": c, "minc": minc, "iters": iters})
+        script = head + srots + body
+        impl, rc, err, model = ck.run_pair(hbin, DRIVER, script)
+        impl = impl or []
+        ck.traces_validated += 1
+        ck.count("scripts:sup")
+        if rc != 0 or len(impl) != len(script) - 1:
+            ck.report({"engine": "phs", "class": "harness-failure", "what": "sup run stopped early"}, script=[l[:400] for l in script],
+                      observed=impl[-2:] + [str(rc), (err or "")[-800:]])
+            bad += 1
+            continue
+        off = len(head) - 1 + len(srots)
+        for j, m in enumerate(metas):
+            o = impl[off + j]
+            ln = script[1 + off + j]
+            _, d = fields(o)
+            ck.count("op:" + ln.split()[0])
+            ck.case(("sup", pi, j), True)
+            f = None
+            if "found" not in d:
+                f = "unexpected %r" % o
+            else:
+                used = int(d["used"])
+                ck.count("sup:found=%s" % d["found"])
+                ck.count("sup:pairs=%d" % len(pairs))
+                if used < 0 or used > m["iters"]:
+                    f = "the call made %d iterations with numIters=%d" % (used, m["iters"])
+                elif d["found"] == "0" and used != m["iters"] and m["minc"] is None:
+                    f = "failure reported after %d of %d iterations" % (used, m["iters"])
+                elif d["found"] == "1":
+                    x = fvec(d["~x"])
+                    h = min(focal(x, *p_) for p_ in pairs)
+                    if d["inb"] != "1" or not all(lo - EPS <= v <= hi + EPS for v in x):
+                        f = "successful sample outside the bounds: %r" % (x,)
+                    elif not h < m["c"]:
+                        f = "successful sample has heuristic cost %r >= maxCost %r" % (h, m["c"])
+                    elif m["minc"] is not None and h < m["minc"] - TOL * S:
+                        f = "successful sample has heuristic cost %r < minCost %r" % (h, m["minc"])
+            keep = head + srots + body[:j + 1]
+            if f is not None:
+                if ck.report({"engine": "phs", "class": "phs-branch-replayed", "what": f}, script=keep, observed=[o], expected=[f]):
+                    ck.log("PHS-branch oracle failure: %s" % f)
+                    bad += 1
+            dd = cmpst.line(o, model[off + j] if off + j < len(model) else "<missing>", S)
+            if dd is not None and f is None:
+                ck.disagreements += 1
+                ck.report({"engine": "phs", "class": "correspondence", "what": dd}, script=keep, observed=[o], expected=[model[off + j] if off + j < len(model) else "<missing>"],
+                          found_input=False, obligation="correspondence phs: samplePhsRejectBounds with replayed private draws vs OmplModel.Model.Phs (%s)" % dd)
+                ck.log("model/implementation disagreement on %s: %s" % (ln[:50], dd))
+                bad += 1
+            if bad >= 3:
+                return bad
+    return bad
+
+
+
+# ---------------------------------------------------------------------------------- OrderedInfSampler, scripted
+def run_ordered(ck, hbin, cmpst, rng):
+    """OrderedInfSampler over the rejection sampler with scripted base draws: batch creation (only successful wrapped
+    samples are queued), failure on an all-failed batch, top/pop by heuristic cost, clearBatch when the bound dropped
+    below the queue's best, the persistent queue across calls — lock-step with the model's `orderedRun`, plus an
+    oracle: a success is one of the supplied draws, inside the bounds, with cost below the CURRENT bound."""
+    bad = 0
+    for pi in range(10 if ck.tier == "quick" else 60):
+        r = rng.fork("ord%d" % pi)
+        P = gen_problem(r, "rv", r.choice([2, 3]))
+        n, lo, hi = P["n"], P["lo"], P["hi"]
+        pairs = pairs_of(P)
+        cmins = [dist(s_, g_) for s_, g_ in pairs]
+        iters, batch = r.choice([1, 2, 5]), r.choice([1, 2, 3, 5])
+        thr = r.choice([0.0, EPS])
+        hdr = "phs seed=%d" % (1 + r.below(10 ** 6))
+        script = [hdr] + prob_lines(P) + ["mk ord-rej %d %s %d" % (iters, f2bits(thr), batch)]
+        metas = [None] * (len(script) - 1)
+        supplied = []
+        cbase = max(cmins) * 1.6
+        for j in range(10):
+            c = cbase * r.choice([1.0, 1.0, 0.9, 0.75, 1.3])
+            K = 2 * batch * iters + 2
+            idx = r.below(len(pairs))
+            cands = [rand_point(r, P, (pairs[idx][0], pairs[idx][1], c)) if r.chance(3, 4) else [lo + (hi - lo) * r.unit() for _ in range(n)]
+                     for _ in range(K)]
+            cands = [[min(hi, max(lo, v)) for v in x] for x in cands]    # like the real base sampler, scripted draws stay in bounds
+            if j % 4 == 3:      # a batch that fails entirely: every draw far outside the informed set
+                cands = [[hi - 1e-3 * (hi - lo) * r.unit() for _ in range(n)] for _ in range(K)]
+                c = min(cmins) * 1.0001
+            script.append("base %d %s" % (K, " ".join(vb(x) for x in cands)))
+            metas.append(None)
+            supplied += [vb(x).replace(" ", ",") for x in cands]
+            script.append("osu %s" % f2bits(c))
+            metas.append({"c": c, "supplied": set(supplied)})
+        impl, rc, err, model = ck.run_pair(hbin, DRIVER, script)
+        impl = impl or []
+        ck.traces_validated += 1
+        ck.count("scripts:ordered")
+        if rc != 0 or len(impl) != len(script) - 1:
+            ck.report({"engine": "phs", "class": "harness-failure", "what": "ordered run stopped early"}, script=script,
+                      observed=impl[-2:] + [str(rc), (err or "")[-800:]])
+            bad += 1
+            continue
+        S = max(abs(lo), abs(hi)) + 2 * cbase
+        dead = False
+        for i, (ln, m) in enumerate(zip(script[1:], metas)):
+            o = impl[i]
+            if m is None or dead:
+                continue
+            _, d = fields(o)
+            ck.count("op:osu")
+            f = None
+            if o.endswith("starved"):
+                ck.count("osu:starved")
+                dead = True      # queue state unknown afterwards (harness artefact)
+                continue
+            ck.case(("osu", pi, i), True)
+            ck.count("osu:found=%s" % d.get("found"))
+            if "found" not in d:
+                f = "unexpected %r" % o
+            elif int(d["q"]) > batch:
+                f = "queue holds %s states with batch size %d" % (d["q"], batch)
+            elif d["found"] == "1":
+                x = fvec(d["x"])
+                h = base_heur(P, thr, x)
+                if d["x"] not in m["supplied"]:
+                    f = "returned state is not one of the base sampler's draws"
+                elif not all(lo - EPS <= v <= hi + EPS for v in x):
+                    f = "successful ordered sample outside the bounds"
+                elif not h < m["c"] + TOL * S:
+                    f = "successful ordered sample has heuristic cost %r >= the current bound %r" % (h, m["c"])
+            elif d["found"] == "0" and d["q"] != "0":
+                f = "failure reported with a non-empty queue"
+            if f is not None:
+                if ck.report({"engine": "phs", "class": "ordered-scripted", "what": f}, script=script[:i + 2], observed=[o], expected=[f]):
+                    ck.log("ordered oracle failure: %s" % f)
+                    bad += 1
+            dd = cmpst.line(o, model[i] if i < len(model) else "<missing>", S)
+            if dd is not None and f is None:
+                ck.disagreements += 1
+                ck.report({"engine": "phs", "class": "correspondence", "what": dd}, script=script[:i + 2], observed=[o], expected=[model[i] if i < len(model) else "<missing>"],
+                          found_input=False, obligation="correspondence phs: OrderedInfSampler (scripted) vs OmplModel.Model.Phs.orderedRun (%s)" % dd)
+                ck.log("model/implementation disagreement on osu: %s" % dd)
+                bad += 1
+                dead = True
+            if bad >= 3:
+                return bad
+    return bad
+
+
+
 # ---------------------------------------------------------------------------------- the check
 def corpus():
     d = os.path.join(core.VERIF, "corpus", "C15")
@@ -1352,6 +1621,10 @@ def run(ck):
     if bad < 3:
         bad += run_exact(ck, hbin, cmpst)
     if bad < 3:
+        bad += run_sup(ck, hbin, cmpst, ck.rng.fork("sup"))
+    if bad < 3:
+        bad += run_ordered(ck, hbin, cmpst, ck.rng.fork("ordered"))
+    if bad < 3:
         bad += run_seq(ck, hbin, cmpst, ck.rng.fork("seq"))
     if bad < 3:
         bad += run_keep(ck, hbin, ck.rng.fork("keep"))
@@ -1410,16 +1683,22 @@ MANIFEST = {
     "engine": "phs",
     "category": "proof",
     "design_ref": "DESIGN.md 2.15",
-    "text": "Lean 4 theorems: the prolate-hyperspheroid map x = R diag(c/2, r, ..., r) u + centre with orthonormal R whose first column is the "
-            "focal axis sends the unit sphere onto the set of focal sum c, the open unit ball onto exactly the set of focal sum < c (nothing that "
-            "can help is excluded), in every dimension; the coded measure equals unitBall(n) (c/2) r^(n-1) with the unit-ball volume of Mathlib; "
-            "the 1/k overlap rejection equalises the density on a finite partition; and, arithmetic-free, a `true` return of the modelled "
-            "direct / rejection / ordered sampler loops implies the returned state passed the bounds and cost tests of the branch taken within the "
-            "iteration limit.  Tied to the code by lock-step runs of the real ProlateHyperspheroid and of the samplers' decision logic against the "
-            "compiled model, and by an oracle on 10^4-10^5 sampled outputs per configuration.",
-    "note": "level: proof for geometry and decision logic; sampled outputs for the RNG-driven PHS branch, uniformity (chi-square tests with loose "
-            "thresholds) and coverage. Trusted: Lean kernel, the three standard axioms, the hand-written model outside what the correspondence explored, "
-            "Eigen's SVD (hypotheses checked per instance), IEEE rounding (modelled, not verified), the harness.",
-    "technique": "Lean 4 proof (inner-product-space geometry, Gamma recurrence, finite mixing argument, induction over the sampler loops) + "
-                 "differential correspondence + sampled-output oracle",
+    "text": "Lean 4 theorems (every dimension): the prolate-hyperspheroid map x = R diag(c/2, r, ..., r) u + centre with orthonormal R whose "
+            "first column is the focal axis sends the unit sphere onto focal sum = c, the closed ball into focal sum <= c, the open ball onto EXACTLY "
+            "the set of focal sum < c (nothing that can help is excluded); in the plane the rotation is computed by the model itself (no hypothesis); "
+            "the coded prolateHyperspheroidMeasure / unitNBallMeasure / nBallMeasure equal the closed forms and the reported measure IS the Lebesgue volume "
+            "of {x : d(x,f1)+d(x,f2) < c} (Mathlib); the PHS state is a function of the current diameter only; the 1/k overlap rejection equalises the density "
+            "on a finite partition; a true return of the modelled PathLengthDirectInfSampler (2- and 3-argument forms, both branches, any number of "
+            "start/goal pairs), RejectionInfSampler, OrderedInfSampler (with its persistent queue) and the InformedStateSampler wrapper implies the returned "
+            "state passed the bounds test and has minCost <= heuristic < maxCost within the iteration cap (arithmetic-free loop theorems + corollaries over R). "
+            "Tied to the code by lock-step runs of the real classes against the compiled model: ProlateHyperspheroid ops (dims 2-8, incl. successive diameters "
+            "1 ulp apart on one object), updatePhsDefinitions / heuristic / inclusion counts / informed measures, the rejection loops with scripted base-sampler "
+            "draws, the PHS-sampling branch (multi-PHS selection, 1/k rejection, re-test) with the sampler's private RNG draws replayed through an identically "
+            "seeded twin, the ordered sampler's queue, the wrapper; plus an oracle on ~10^6 sampled outputs per quick run.",
+    "note": "level: proof for geometry, measure and decision logic; sampled outputs for RNG uniformity (chi-square tests with loose thresholds), coverage and the "
+            "compound-space (SE2/SE3) sampling paths. Trusted: Lean kernel, the three standard axioms, the hand-written model outside what the correspondence "
+            "explored, Eigen's SVD for n >= 3 (orthonormality, first column and det = +1 checked per instance at 1e-9; n = 2 recomputed by the model), IEEE rounding "
+            "(modelled, not verified), the harness. Finding F36 (erased PHS never restored) stays.",
+    "technique": "Lean 4 proof (inner-product-space geometry, determinant/Haar measure of a linear image, Gamma recurrence, finite mixing argument, induction "
+                 "over the sampler loops) + differential correspondence incl. RNG-twin replay + sampled-output oracle",
 }
